@@ -149,6 +149,9 @@ def cg(A, b, x0=None, tol=1e-5, criteria='rr',
         if pAp < 0.0:
             warn('\nIndefinite matrix detected in CG, aborting\n')
             return (postprocess(x), -1)
+        if pAp == 0.0:
+            warn('\nBreakdown in CG (vanishing search direction), aborting\n')
+            return (postprocess(x), -1)
 
         alpha = rz/pAp                            # 3
         x += alpha * p                            # 4
